@@ -5,6 +5,10 @@
 #[cfg(kani)]
 mod refmodel;
 #[cfg(kani)]
+mod c01;
+#[cfg(kani)]
+mod c04;
+#[cfg(kani)]
 mod c17;
 #[cfg(kani)]
 mod c18;
